@@ -1,6 +1,7 @@
 """C11 - Task.wbs tells the truth about WBS membership (also after every removal path).
 Search: wf_own_b (owner = the WBS whose hidden root is the raw root of the task, None for detached trees) and
-wf_hid_b on the snapshot after every call.  Tie: outcome class and Task.wbs of every object."""
+wf_hid_b on the snapshot after every call; and, on the observations themselves, `t.wbs is w` exactly for the
+tasks listed by w.tasks.  Tie: outcome class and Task.wbs of every object."""
 from harness.props import graph_common as gc
 
 ID = 'C11'
@@ -17,7 +18,44 @@ SPEC = gc.Spec(
 
 
 def run(ctx):
-    gc.run_property(ctx, SPEC)
+    hists, _ = gc.run_property(ctx, SPEC)
+    # The property in its own words, on the observations themselves: a task reports WBS w exactly when it is among
+    # WBS.tasks of w.  wf_own_b decides ownership by walking UP the raw parents, WBS.tasks walks DOWN the children
+    # lists; the two agree only while parent and children mirror each other (C01), so a task that is still listed
+    # but has lost parent and owner would pass wf_own_b.
+    shown = {}
+    for h in hists:
+        pre = gc.EMPTY
+        for ix, st in enumerate(h['steps']):
+            lists = (st.get('reads') or {}).get('tasks', [])
+            heap = st['post']['heap']
+            bad = None
+            for wi, l in enumerate(lists):
+                if l == [10 ** 6]:          # WBS.tasks itself raised (a cycle): C01's business
+                    continue
+                members = set(l)
+                for x, rec in enumerate(heap):
+                    if rec[6]:              # hidden root
+                        continue
+                    if (x in members) != (rec[5] == wi):
+                        bad = (wi, x, rec[5], x in members)
+                        break
+                if bad:
+                    break
+            if bad:
+                k = st['op'][0]
+                shown[k] = shown.get(k, 0) + 1
+                if shown[k] <= 2:
+                    origin = ('corpus: ' + h['corpus']) if 'corpus' in h else 'generated history, seed %s' % h.get('seed')
+                    ctx.failure('C11/%s/owner-disagrees-with-WBS.tasks' % k,
+                                'C11/%s/owner-disagrees-with-WBS.tasks: object %d reports WBS %r but %s listed by WBS.tasks of WBS %d, '
+                                'after %s (%s)' % (k, bad[1], bad[2], 'is' if bad[3] else 'is not', bad[0], gc.describe_call(st), origin),
+                                {'kind': 'ops', 'items': gc.items_of(h, ix), 'origin': origin, 'call_index': ix, 'op': st['op'],
+                                 'how': st['how'], 'pre': pre, 'observed': {'reads': st['reads'], 'post': st['post']}})
+                break                       # the state is ill-formed from here on
+            pre = st['post']
+    if shown:
+        ctx.coverage.setdefault('distribution', {})['owner_vs_tasks_by_call_site'] = shown
 
 
 def replay(ctx, rep):
